@@ -21,6 +21,12 @@ pub(crate) mod var_int;
 pub mod errors;
 
 pub(crate) use self::bits::{lshift, rshift, Bits};
+#[cfg(feature = "verif-hooks")]
+pub mod verif_hooks {
+    //! Add-only re-exports of crate-private items for the verification harness.
+    pub use super::bits::{lshift, rshift, Bits};
+    pub use super::var_int::{read as var_int_read, size as var_int_size, write as var_int_write};
+}
 // #[allow(dead_code)]
 pub use self::bloom_filter::{
     BloomFilter, BLOOM_FILTER_MAX_FILTER_SIZE, BLOOM_FILTER_MAX_HASH_FUNCS,
